@@ -5,6 +5,8 @@ set -u
 P=$1; N=$2; shift 2
 L=/tmp/lanes/$N
 rm -rf $L; mkdir -p $L
+trap '' PIPE
+trap 'cd /; git -C /repo worktree remove --force $L/repo 2>/dev/null; rm -rf $L' EXIT
 git -C /repo worktree prune; git -C /repo worktree add -q --detach $L/repo HEAD || exit 2
 if [ "$P" != "-" ]; then git -C $L/repo apply "$(realpath $P)" || { echo "$N PATCH DOES NOT APPLY"; git -C /repo worktree remove --force $L/repo; exit 2; }; fi
 rsync -a --exclude .git --exclude replays --exclude evidence ${VERIF_SRC:-/verif}/ $L/verif/
@@ -24,4 +26,4 @@ print((d.get('what') or '')[:200], '|', d.get('signature','')[:80], '|', [b.get(
     done
   fi
 done
-cd /; git -C /repo worktree remove --force $L/repo; rm -rf $L
+exit 0
